@@ -1886,20 +1886,32 @@ class PyCdlib:
         if self._rr_moved_record.initialized:
             return 0
 
-        if self._rr_moved_name is None:
-            self._rr_moved_name = b'RR_MOVED'
-        if self._rr_moved_rr_name is None:
-            self._rr_moved_rr_name = b'rr_moved'
+        rr_moved_name = self._rr_moved_name
+        if rr_moved_name is None:
+            rr_moved_name = b'RR_MOVED'
+        rr_moved_rr_name = self._rr_moved_rr_name
+        if rr_moved_rr_name is None:
+            rr_moved_rr_name = b'rr_moved'
 
-        # No rr_moved found, so we have to create it.
+        # No rr_moved found, so we have to create it.  Creating the record
+        # already counts it in the Rock Ridge link counts of the root, so
+        # make sure first that the root can take the name (the user may have
+        # an entry of that name of their own).
+        self.pvd.root_directory_record().check_new_child(rr_moved_name)
+
         rec = dr.DirectoryRecord()
-        rec.new_dir(self.pvd, self._rr_moved_name,
+        rec.new_dir(self.pvd, rr_moved_name,
                     self.pvd.root_directory_record(),
                     self.pvd.sequence_number(), self.rock_ridge,
-                    self._rr_moved_rr_name, self.logical_block_size,
+                    rr_moved_rr_name, self.logical_block_size,
                     False, False, self.xa, 0o040555, time.time())
         num_bytes_to_add = self._add_child_to_dr(rec)
         num_bytes_to_add += self._update_rr_ce_entry(rec)
+
+        # Only now that the directory exists are its names settled; a refusal
+        # above leaves set_relocated_name() available as before.
+        self._rr_moved_name = rr_moved_name
+        self._rr_moved_rr_name = rr_moved_rr_name
 
         self._create_dot(self.pvd, rec, self.rock_ridge, self.xa, 0o040555)
         self._create_dotdot(self.pvd, rec, self.rock_ridge, False, self.xa,
@@ -1907,7 +1919,7 @@ class PyCdlib:
 
         # We always need to add an entry to the path table record.
         ptr = path_table_record.PathTableRecord()
-        ptr.new_dir(self._rr_moved_name)
+        ptr.new_dir(rr_moved_name)
         num_bytes_to_add += self.logical_block_size + self._add_to_ptr_size(ptr)
 
         rec.set_ptr(ptr)
